@@ -367,6 +367,35 @@ def shapes_stream(ctx, r, work, tier):
                               "C06/assemble/loci-abort")
                 shutil.rmtree(d, ignore_errors=True)
                 continue
+        # ---- a second record at the position of an SNV whose REF is not the reference base (records of one position are merged):
+        # the disagreement must be reported, the stated base never used as an allele
+        cands = [(l, p_, a_) for l in ds.loci for p_, a_ in zip(l.snv_positions, l.snv_alleles)]
+        if cands:
+            l_, p_, a_ = r.choice(cands)
+            true_ref = ds.contigs[l_.contig][p_]
+            wrong = r.choice([b for b in "ACGT" if b != true_ref.upper()])
+            alt_ = r.choice([b for b in "ACGT" if b not in (true_ref.upper(), wrong)])
+            body = [x for x in text.split("\n") if x]
+            hdr_, recs_ = [x for x in body if x.startswith("#")], [x for x in body if not x.startswith("#")]
+            extra = f"{l_.contig}\t{p_ + 1}\t.\t{wrong}\t{alt_}\t.\tPASS\t."
+            key = lambda x: (list(ds.contigs).index(x.split("\t")[0]), int(x.split("\t")[1]))   # noqa: E731
+            last = max(i for i, x in enumerate(recs_) if key(x) == key(extra))
+            recs_.insert(last + 1, extra)
+            if with_dot:
+                recs_ = [x for x in recs_ if not x.endswith("\t.\t.\tPASS\t.")]
+            vcf3 = S.bgzip_tabix_vcf(S.write_text(os.path.join(d, "shaped_conflict.vcf"), "\n".join(hdr_ + recs_) + "\n"))
+            chk.count("shapes:variants:second-record-with-a-REF-that-is-not-the-reference-base")
+            try:
+                _, prog3 = build(vcf3)
+                ml3 = list(prog3.loci())
+                used = [list(a) for m in ml3 if m.name == l_.name or (m.contig, m.start) == (l_.contig, l_.start)
+                        for q, a in zip(m.positions, m.alleles) if q == p_]
+                chk.violation("two --variants records of one position disagree about the reference base (one of them with the FASTA "
+                              "too) and no error is reported" + ("; the stated base is used as an allele" if any(wrong in a for a in used) else ""),
+                              {**case, "position": [l_.contig, p_], "fasta_base": true_ref, "stated_ref": wrong, "alleles_used": used},
+                              "C06/set_variants/reference-conflict-not-reported")
+            except Exception:  # noqa: BLE001
+                chk.count("shapes:reference-conflict-reported")
         # ---- the loci the program will use
         targets = []
         bad = len(mloci) != len(ds.loci)
